@@ -169,6 +169,11 @@ class PUSO(BO, PUSOMatrix):
         P = puso_to_pubo(self)
         P._mapping = self.mapping
         P._reverse_mapping = self.reverse_mapping
+        # self may report variables that no longer appear in any term; P must
+        # count them too, since its ancilla labels start after its variables.
+        P._variables = self.variables
+        P._num_binary_variables = self.num_binary_variables
+        P._next_label = self._next_label
         return P
 
     def to_pubo(self, deg=None, lam=None, pairs=None):
